@@ -19,12 +19,27 @@
   "an importer is not a strict ancestor of its importee": importers are `.py` files, and on a `treeWFFor` tree a
   file's module has no descendants. Without `treeWFFor` (a file `x.py` next to a directory `x`) that clause fails
   and so does the end-to-end statement (`collision_needs_treeWF`).
+
+  Further compositions on the same scan graph (second half of the file):
+  * `scan_layer_verdict` (∘ C05): LayerRule verdicts = documented layer semantics on `scanArch`;
+  * `scan_diagram_conforms`, `scan_diagram_file_conforms`, `scan_diagram_file_base_conforms` (∘ C07, C06 ∘ C07):
+    DiagramRule passes iff the imports of the tree conform to the drawing;
+  * `scan_nodes_perm`, `scan_labels`, `scan_labels_pointwise`, `scan_labels_unknown_alias` (∘ C17): plot labels;
+  * `scan_quotient_of_scanArch`, `scan_rule_verdict_limit`, `scan_rule_verdict_limit_of`, `scan_layer_verdict_limit`
+    (∘ C09): with `level_limit = k` the scan graph is the quotient of `scanArch` under truncation to `k` levels below
+    `module_path`, and strict rules at or above the limit have the verdict of the unlimited scan = the documented
+    semantics on the full `scanArch`.
 -/
 import Bridge.Abs
 import Bridge.ScanAbs
 import Bridge.ScanTree
 import PtaProofs.Lemmas.Semantics
 import PtaProofs.Lemmas.E2ERule
+import PtaProofs.Lemmas.E2EMore
+import PtaProofs.Props.C05
+import PtaProofs.Props.C07
+import PtaProofs.Props.C09
+import PtaProofs.Props.C17
 namespace Pta.E2E
 open Pta PtaSpec
 
@@ -268,5 +283,440 @@ theorem collision_needs_treeWF :
       [(nm "r.a", nm "r.a.b")]) exCollisionRule = false ∧
     (generateGraph noRe (s "/x/r") (s "r") [] exCollision exNoExcl).toOption.map
         (fun g => verdictOf noRe g (compile exCollisionRule)) = some .pass := by decide
+
+/-! ## more end-to-end theorems on scanned architectures: layer rules (C05), diagram rules (C07), plot labels (C17)
+    and the level limit (C09), each composed with the scan (C04 ∘ C02) -/
+
+section tree2
+variable (mt : Str → Str → Bool) (base root : Str) (mp : List Str) (entries : List Entry) (o : ScanOptions)
+  (hwf : treeWFFor (isExcluded mt o.exclusions) base mp entries = true) (hmp : mpOK entries mp = true)
+  (hroot : compWF root = true)
+  (hxx : o.excludeExternal = true) (hlim : o.levelLimit = none) (hext : o.externalExclusions.isEmpty = true)
+  (hst : ∀ e ∈ entries, ∀ st ∈ e.stmts, stmtOK (toSStmt st) = true)
+  (is : List (Name × Name))
+  (his : scanImports root (toSEntries (isExcluded mt o.exclusions) base entries) mp = some is)
+include hwf hmp hroot hxx hlim hext hst his
+
+/-- END-TO-END, layer rules (C04 ∘ C02 ∘ C05): on the scan graph, `LayerRule(...).assert_applies` passes exactly when
+    the documented layer semantics hold on the modules of the directory tree and the imports its import statements
+    account for, and fails (AssertionError; never `LayerMismatch` or another error) exactly when they do not — for every
+    layered architecture `larch` (name layers and regex layers; `ls` = its layers with every regex resolved over the
+    modules of the scan graph), every regex matcher `mt'` and every layer rule in the domain of C05. -/
+theorem scan_layer_verdict :
+    ∃ g, generateGraph mt base root mp entries o = .ok g ∧
+      ∀ (mt' : Str → Str → Bool) (ls : Layers) (r : LRuleSpec) (larch : LArch),
+        layerDomain (scanArch root (toSEntries (isExcluded mt o.exclusions) base entries) mp is) ls r = true →
+        (r.anything = true → r.verb = .shouldNot) →
+        resolves mt' g.nodes larch ls = true →
+        (assertAppliesLayer mt' (compileLayerRule larch r) g).cls =
+          VClass.ofBool (layerVerdict (scanArch root (toSEntries (isExcluded mt o.exclusions) base entries) mp is) ls r) := by
+  obtain ⟨g, hgen, hawf, hg⟩ := scan_graph_of_scanArch mt base root mp entries o hwf hmp hroot hxx hlim hext hst is his
+  exact ⟨g, hgen, fun mt' ls r larch hdom hany hres => Pta.C05.layer_verdict mt' _ g hg hawf ls r hdom hany larch hres⟩
+
+/-- … in particular for layers that list modules by name (`compileLArch ls` resolves to `ls` on every graph) -/
+theorem scan_layer_verdict_names :
+    ∃ g, generateGraph mt base root mp entries o = .ok g ∧
+      ∀ (mt' : Str → Str → Bool) (ls : Layers) (r : LRuleSpec),
+        layerDomain (scanArch root (toSEntries (isExcluded mt o.exclusions) base entries) mp is) ls r = true →
+        (r.anything = true → r.verb = .shouldNot) →
+        (assertAppliesLayer mt' (compileLayerRule (compileLArch ls) r) g).cls =
+          VClass.ofBool (layerVerdict (scanArch root (toSEntries (isExcluded mt o.exclusions) base entries) mp is) ls r) := by
+  obtain ⟨g, hgen, hawf, hg⟩ := scan_graph_of_scanArch mt base root mp entries o hwf hmp hroot hxx hlim hext hst is his
+  exact ⟨g, hgen, fun mt' ls r hdom hany => Pta.C05.layer_verdict_names mt' _ g hg hawf ls r hdom hany⟩
+
+/-- END-TO-END, diagram rules (C04 ∘ C02 ∘ C07): the rules `DependencyToRuleConverter` generates from a diagram `D`,
+    applied by `MultipleRuleApplier` to the scan graph, pass exactly when the imports of the tree conform to `D`
+    (both modes), for every diagram in the domain of C07 over the scanned modules. -/
+theorem scan_diagram_conforms :
+    ∃ g, generateGraph mt base root mp entries o = .ok g ∧
+      ∀ (mt' : Str → Str → Bool) (D : Diagram) (so : Bool),
+        diagramDomain (scanArch root (toSEntries (isExcluded mt o.exclusions) base entries) mp is) D = true →
+        (applyAll mt' g (diagramRules so (parsedOf D)) = .pass ↔
+          conforms (scanArch root (toSEntries (isExcluded mt o.exclusions) base entries) mp is) D so = true) := by
+  obtain ⟨g, hgen, -, hg⟩ := scan_graph_of_scanArch mt base root mp entries o hwf hmp hroot hxx hlim hext hst is his
+  exact ⟨g, hgen, fun mt' D so hdom => Pta.C07.conforms_iff_of_graph mt' _ g hg D so hdom⟩
+
+/-- END-TO-END from the diagram FILE (C06 ∘ C07 on the scan graph): for every diagram `d` of the documented subset,
+    rendered with any noise around the tags, `DiagramRule.assert_applies` on the scan graph passes exactly when the
+    imports of the tree conform to the drawing, and it never raises. (`Pta.C07.diagram_file_conforms_iff` is stated for
+    the constructor's graph `archGraph a`; the lemma behind it, `Pta.E2E.file_conforms_lemma`, holds on every
+    `GraphOf a g`, which is what is used here.) -/
+theorem scan_diagram_file_conforms :
+    ∃ g, generateGraph mt base root mp entries o = .ok g ∧
+      ∀ (mt' : Str → Str → Bool) (noise1 noise2 : Str) (d : List DLine), diagramWF d = true →
+        isInfix "@enduml".toList noise2 = false → ∀ (so : Bool),
+        diagramDomain (scanArch root (toSEntries (isExcluded mt o.exclusions) base entries) mp is) (specDiagram d) = true →
+        (diagramAssert mt' (some (diagramText noise1 d noise2)) none so g = .pass ↔
+          conforms (scanArch root (toSEntries (isExcluded mt o.exclusions) base entries) mp is) (specDiagram d) so = true) ∧
+        (∀ k, diagramAssert mt' (some (diagramText noise1 d noise2)) none so g ≠ .err k) := by
+  obtain ⟨g, hgen, -, hg⟩ := scan_graph_of_scanArch mt base root mp entries o hwf hmp hroot hxx hlim hext hst is his
+  refine ⟨g, hgen, fun mt' noise1 noise2 d hdw hn so hdom => ?_⟩
+  obtain ⟨h1, h2, -⟩ := Pta.E2E.file_conforms_lemma mt' _ g hg noise1 noise2 d hdw (by rw [← tag_end_eq]; exact hn)
+    (specDiagram d) (Pta.E2E.means_specDiagram d) so hdom
+  exact ⟨h1, h2⟩
+
+/-- the same with `with_base_module(q)`: the file is checked as if every component were written `q.name` -/
+theorem scan_diagram_file_base_conforms :
+    ∃ g, generateGraph mt base root mp entries o = .ok g ∧
+      ∀ (mt' : Str → Str → Bool) (noise1 noise2 : Str) (d : List DLine), diagramWF d = true →
+        isInfix "@enduml".toList noise2 = false → ∀ (q : Name), q ≠ [] → ∀ (so : Bool),
+        diagramDomain (scanArch root (toSEntries (isExcluded mt o.exclusions) base entries) mp is)
+          (prefixDiagram q (specDiagram d)) = true →
+        (diagramAssert mt' (some (diagramText noise1 d noise2)) (some (render q)) so g = .pass ↔
+          conforms (scanArch root (toSEntries (isExcluded mt o.exclusions) base entries) mp is)
+            (prefixDiagram q (specDiagram d)) so = true) ∧
+        (∀ k, diagramAssert mt' (some (diagramText noise1 d noise2)) (some (render q)) so g ≠ .err k) := by
+  obtain ⟨g, hgen, -, hg⟩ := scan_graph_of_scanArch mt base root mp entries o hwf hmp hroot hxx hlim hext hst is his
+  refine ⟨g, hgen, fun mt' noise1 noise2 d hdw hn q hq so hdom => ?_⟩
+  obtain ⟨h1, h2, -⟩ := Pta.E2E.file_conforms_base_lemma mt' _ g hg noise1 noise2 d hdw (by rw [← tag_end_eq]; exact hn)
+    (specDiagram d) (Pta.E2E.means_specDiagram d) q hq so hdom
+  exact ⟨h1, h2⟩
+
+end tree2
+
+section labels
+variable (mt : Str → Str → Bool) (base root : Str) (mp : List Str) (entries : List Entry) (o : ScanOptions)
+  (hwf : treeWFFor (isExcluded mt o.exclusions) base mp entries = true) (hmp : mpOK entries mp = true)
+  (hroot : compWF root = true)
+  (hxx : o.excludeExternal = true) (hlim : o.levelLimit = none) (g : PGraph Str)
+  (h : generateGraph mt base root mp entries o = .ok g)
+include hwf hmp hroot hxx hlim h
+
+/-- the node list of a scan graph is a permutation of the rendered modules of the directory tree (no assumption on the
+    import statements: whenever the scan succeeds) -/
+theorem scan_nodes_perm :
+    g.nodes.Perm ((scanModules root (toSEntries (isExcluded mt o.exclusions) base entries) mp).map render) := by
+  obtain ⟨hp, hback, -⟩ := E2EMore.nodes_perm_lemma mt base root mp entries o hwf hmp hroot hxx hlim g h
+  rw [← hback]
+  exact hp.map render
+
+/-- END-TO-END, plot labels (C04 ∘ C17): for every alias map whose keys are distinct scanned modules,
+    `_create_plot_labels_with_alias` on the scan graph succeeds, labels every node exactly once (in the graph's node
+    order), and — as a set / up to that order — the labelling is the documented one on the modules of the directory
+    tree: every module is labelled by its nearest aliased ancestor-or-self's alias plus the remaining components. -/
+theorem scan_labels (al : Aliases) (hk : (al.map (·.1)).Nodup)
+    (hex : ∀ a ∈ al, a.1 ∈ scanModules root (toSEntries (isExcluded mt o.exclusions) base entries) mp) :
+    ∃ ls, plotLabels g.nodes (al.map fun a => (render a.1, a.2)) = .ok ls ∧
+      ls.map (·.1) = g.nodes ∧
+      ls.Perm ((scanModules root (toSEntries (isExcluded mt o.exclusions) base entries) mp).map
+        fun n => (render n, PtaSpec.label al n)) :=
+  E2EMore.labels_perm_lemma mt base root mp entries o hwf hmp hroot hxx hlim g h al hk hex
+
+/-- read pointwise: the label of each scanned module `n` is `label al n`, and nothing else is labelled -/
+theorem scan_labels_pointwise (al : Aliases) (hk : (al.map (·.1)).Nodup)
+    (hex : ∀ a ∈ al, a.1 ∈ scanModules root (toSEntries (isExcluded mt o.exclusions) base entries) mp) :
+    ∃ ls, plotLabels g.nodes (al.map fun a => (render a.1, a.2)) = .ok ls ∧
+      ∀ p, p ∈ ls ↔ ∃ n ∈ scanModules root (toSEntries (isExcluded mt o.exclusions) base entries) mp,
+        p = (render n, PtaSpec.label al n) := by
+  obtain ⟨ls, h1, -, h3⟩ := scan_labels mt base root mp entries o hwf hmp hroot hxx hlim g h al hk hex
+  refine ⟨ls, h1, fun p => ?_⟩
+  rw [h3.mem_iff, List.mem_map]
+  constructor
+  · rintro ⟨n, hn, rfl⟩; exact ⟨n, hn, rfl⟩
+  · rintro ⟨n, hn, rfl⟩; exact ⟨n, hn, rfl⟩
+
+/-- an alias for something that is not a scanned module is rejected, naming it (C17 on the scan graph) -/
+theorem scan_labels_unknown_alias (aliases : List (Str × Str))
+    (hbad : ∃ a ∈ aliases, ∀ n ∈ scanModules root (toSEntries (isExcluded mt o.exclusions) base entries) mp, a.1 ≠ render n) :
+    ∃ who, plotLabels g.nodes aliases = .error (.lookupError, who) ∧ who ∈ aliases.map (·.1) ∧
+      ∀ n ∈ scanModules root (toSEntries (isExcluded mt o.exclusions) base entries) mp, who ≠ render n := by
+  have hp := scan_nodes_perm mt base root mp entries o hwf hmp hroot hxx hlim g h
+  obtain ⟨a, ha, hno⟩ := hbad
+  obtain ⟨who, h1, h2, h3⟩ := Pta.C17.unknown_alias g.nodes aliases
+    ⟨a, ha, fun hin => by
+      obtain ⟨n, hn, e⟩ := List.mem_map.1 (hp.mem_iff.1 hin)
+      exact hno n hn e.symm⟩
+  exact ⟨who, h1, h3, fun n hn e => h2 (hp.mem_iff.2 (List.mem_map.2 ⟨n, hn, e.symm⟩))⟩
+
+end labels
+
+/-! ### the level limit (C09) on scanned architectures -/
+
+section limit
+variable (mt : Str → Str → Bool) (base root : Str) (mp : List Str) (entries : List Entry) (o : ScanOptions) (k : Nat)
+  (hwf : treeWFFor (isExcluded mt o.exclusions) base mp entries = true) (hmp : mpOK entries mp = true)
+  (hroot : compWF root = true)
+  (hxx : o.excludeExternal = true) (hlim : o.levelLimit = some k) (hext : o.externalExclusions.isEmpty = true)
+  (hst : ∀ e ∈ entries, ∀ st ∈ e.stmts, stmtOK (toSStmt st) = true)
+  (is : List (Name × Name))
+  (his : scanImports root (toSEntries (isExcluded mt o.exclusions) base entries) mp = some is)
+include hwf hmp hroot hxx hlim hext hst his
+
+/-- C04 ∘ C02 ∘ C09, graph: with `level_limit = k` (other options default) the scan succeeds exactly as without the
+    limit, and its graph is the QUOTIENT of the specification architecture of the tree under truncation of every
+    module name to `k` levels below `module_path` (`shiftedLimit o mp = some (k + |mp|)`, counted from the root):
+    nodes = truncated modules, a hierarchy edge between a truncated name and its parent, an import edge `a → b`
+    exactly when some module truncating to `a` imports some module truncating to `b` and `a ≠ b`.  The collision
+    clause of the scan-level theorem (`isHierPair`) is vacuous here: on a `treeWFFor` tree files are leaves, so the
+    specification architecture is well-formed and no import leads from a module into its own subtree.
+    Equivalently: the limited scan graph is a graph of the well-formed architecture `truncArch … scanArch`. -/
+theorem scan_quotient_of_scanArch :
+    ∃ g g0, generateGraph mt base root mp entries o = .ok g ∧
+      generateGraph mt base root mp entries o.noLimit = .ok g0 ∧
+      shiftedLimit o mp = some (k + mp.length) ∧
+      (scanArch root (toSEntries (isExcluded mt o.exclusions) base entries) mp is).wf = true ∧
+      GraphOf (scanArch root (toSEntries (isExcluded mt o.exclusions) base entries) mp is) g0 ∧
+      QuotientOf (scanArch root (toSEntries (isExcluded mt o.exclusions) base entries) mp is) (shiftedLimit o mp) g ∧
+      (truncArch (shiftedLimit o mp) (scanArch root (toSEntries (isExcluded mt o.exclusions) base entries) mp is)).wf = true ∧
+      GraphOf (truncArch (shiftedLimit o mp) (scanArch root (toSEntries (isExcluded mt o.exclusions) base entries) mp is)) g := by
+  obtain ⟨g, g0, hg, hg0, hawf, hG0, hq⟩ :=
+    E2EMore.scan_limit_lemma mt base root mp entries o hwf hmp hroot hxx hext hst is his k hlim
+  have hs := Pta.ScanLimit.shiftedLimit_some o mp k hlim
+  rw [hs]
+  exact ⟨g, g0, hg, hg0, rfl, hawf, hG0, hq, Pta.truncArch_wf _ _ hawf, Pta.graphOf_truncArch _ _ g hq⟩
+
+/-- END-TO-END with a level limit (C04 ∘ C02 ∘ C09 ∘ C01): with `level_limit = k` the scan succeeds, and every strict
+    rule over scanned modules whose identifiers lie at or above the limit counted from `module_path` —
+    `ruleAbove (k + |mp|) r`: a module named by `are_named` has at most `k + |mp| + 1` components, i.e. lies at most
+    `k` levels below `root.mp`; the parent of `are_sub_modules_of` has at most `k + |mp|` components, i.e. lies at most
+    `k - 1` levels below (`limit_bound_named`, `limit_bound_subOf`) — has the SAME verdict on the limited graph and on
+    the graph scanned without the limit, and both are the documented semantics on the FULL specification architecture
+    of the tree. -/
+theorem scan_rule_verdict_limit :
+    ∃ g g0, generateGraph mt base root mp entries o = .ok g ∧
+      generateGraph mt base root mp entries o.noLimit = .ok g0 ∧
+      ∀ (mt' : Str → Str → Bool) (r : RuleSpec), r.strict = true →
+        r.namesIn (scanArch root (toSEntries (isExcluded mt o.exclusions) base entries) mp is) = true →
+        r.subjects ≠ [] → (r.anything = true ∨ r.objects ≠ []) → (r.anything = true → r.verb = .shouldNot) →
+        ruleAbove (k + mp.length) r = true →
+        verdictOf mt' g (compile r) = verdictOf mt' g0 (compile r) ∧
+        verdictOf mt' g (compile r) =
+          VClass.ofBool (verdict (scanArch root (toSEntries (isExcluded mt o.exclusions) base entries) mp is) r) := by
+  obtain ⟨g, g0, hg, hg0, hawf, hG0, hq⟩ :=
+    E2EMore.scan_limit_lemma mt base root mp entries o hwf hmp hroot hxx hext hst is his k hlim
+  refine ⟨g, g0, hg, hg0, fun mt' r hstrict hnames hs ho hany habove => ?_⟩
+  have h1 := E2EMore.verdict_of_quotient mt' _ hawf (k + mp.length) g hq r hstrict hnames hs ho hany habove
+  have h0 := Pta.verdict_spec_of_graph_lemma mt' _ g0 hG0 hawf r hstrict hnames hs ho hany
+  exact ⟨h1.trans h0.symm, h1⟩
+
+/-- the same in the form "for the two graphs the two scans return" -/
+theorem scan_rule_verdict_limit_of (g g0 : PGraph Str)
+    (hg : generateGraph mt base root mp entries o = .ok g)
+    (hg0 : generateGraph mt base root mp entries o.noLimit = .ok g0)
+    (mt' : Str → Str → Bool) (r : RuleSpec) (hstrict : r.strict = true)
+    (hnames : r.namesIn (scanArch root (toSEntries (isExcluded mt o.exclusions) base entries) mp is) = true)
+    (hs : r.subjects ≠ []) (ho : r.anything = true ∨ r.objects ≠ []) (hany : r.anything = true → r.verb = .shouldNot)
+    (habove : ruleAbove (k + mp.length) r = true) :
+    verdictOf mt' g (compile r) = verdictOf mt' g0 (compile r) := by
+  obtain ⟨g', g0', hg', hg0', hall⟩ :=
+    scan_rule_verdict_limit mt base root mp entries o k hwf hmp hroot hxx hlim hext hst is his
+  rw [hg] at hg'
+  rw [hg0] at hg0'
+  cases hg'
+  cases hg0'
+  exact (hall mt' r hstrict hnames hs ho hany habove).1
+
+/-- layer rules on the limited graph: the documented layer semantics evaluated on the QUOTIENT architecture
+    (C05 applies to it because it is well-formed and the limited scan graph is a graph of it) -/
+theorem scan_layer_verdict_limit :
+    ∃ g, generateGraph mt base root mp entries o = .ok g ∧
+      ∀ (mt' : Str → Str → Bool) (ls : Layers) (r : LRuleSpec) (larch : LArch),
+        layerDomain (truncArch (shiftedLimit o mp)
+          (scanArch root (toSEntries (isExcluded mt o.exclusions) base entries) mp is)) ls r = true →
+        (r.anything = true → r.verb = .shouldNot) →
+        resolves mt' g.nodes larch ls = true →
+        (assertAppliesLayer mt' (compileLayerRule larch r) g).cls =
+          VClass.ofBool (layerVerdict (truncArch (shiftedLimit o mp)
+            (scanArch root (toSEntries (isExcluded mt o.exclusions) base entries) mp is)) ls r) := by
+  obtain ⟨g, -, hg, -, -, -, -, -, hqwf, hqg⟩ :=
+    scan_quotient_of_scanArch mt base root mp entries o k hwf hmp hroot hxx hlim hext hst is his
+  exact ⟨g, hg, fun mt' ls r larch hdom hany hres => Pta.C05.layer_verdict mt' _ g hqg hqwf ls r hdom hany larch hres⟩
+
+end limit
+
+/-- the bound of `scan_rule_verdict_limit`, spelled out for identifiers written as `root.module_path.rest`:
+    `are_named` may name modules up to `k` levels below `module_path` … -/
+theorem limit_bound_named (k : Nat) (root : Comp) (mp rest : List Comp) :
+    filterAbove (k + mp.length) (.named (root :: mp ++ rest)) = decide (rest.length ≤ k) := by
+  simp only [filterAbove, List.length_cons, List.length_append, decide_eq_decide]
+  omega
+
+/-- … and `are_sub_modules_of` parents up to `k - 1` levels below it (so that the sub modules are at most `k` below) -/
+theorem limit_bound_subOf (k : Nat) (root : Comp) (mp rest : List Comp) :
+    filterAbove (k + mp.length) (.subOf (root :: mp ++ rest)) = decide (rest.length + 1 ≤ k) := by
+  simp only [filterAbove, List.length_cons, List.length_append, decide_eq_decide]
+  omega
+
+/-! ### non-vacuity of the layer theorem: the tree `exTree`, two name layers and a regex layer -/
+
+/-- `top` = the package `r.a` (with `r.a.m`, `r.a.k` below it), `low` = `r.b` -/
+def exLs : Layers := [("top".toList, [nm "r.a"]), ("low".toList, [nm "r.b"])]
+/-- `top` should only access `low` — holds (`r.a.m → r.b`; imports inside `top` do not count) -/
+def exLPass : LRuleSpec :=
+  { verb := .shouldOnly, importDir := true, exc := false, subject := "top".toList, objects := ["low".toList] }
+/-- `low` should not access `top` — violated by `r.b → r.a.k` -/
+def exLFail : LRuleSpec :=
+  { verb := .shouldNot, importDir := true, exc := false, subject := "low".toList, objects := ["top".toList] }
+/-- `low` should not be accessed by any layer — violated by `r.a.m → r.b` -/
+def exLAny : LRuleSpec :=
+  { verb := .shouldNot, importDir := false, exc := false, subject := "low".toList, objects := [], anything := true }
+
+/-- the hypotheses on layers and rules (`resolves` for name layers holds on every node list) … -/
+example :
+    ∀ r ∈ [exLPass, exLFail, exLAny],
+      layerDomain (scanArch (s "r") (toSEntries (isExcluded noRe exOpts.exclusions) (s "/x/r") exTree) [] exIs) exLs r = true ∧
+      (r.anything = true → r.verb = .shouldNot) := by decide
+example (nodes : List Str) : resolves noRe nodes (compileLArch exLs) exLs = true := Pta.C05.resolves_names noRe nodes exLs
+
+set_option maxRecDepth 40000 in
+/-- … and both sides evaluated: the model (scan, then `LayerRule.assert_applies`) and the layer semantics on the
+    specification architecture of the tree -/
+example :
+    (generateGraph noRe (s "/x/r") (s "r") [] exTree exOpts).toOption.map
+        (fun g => [exLPass, exLFail, exLAny].map fun r =>
+          (assertAppliesLayer noRe (compileLayerRule (compileLArch exLs) r) g).cls) =
+      some [.pass, .fail, .fail] ∧
+    [exLPass, exLFail, exLAny].map
+        (layerVerdict (scanArch (s "r") (toSEntries (isExcluded noRe exOpts.exclusions) (s "/x/r") exTree) [] exIs) exLs) =
+      [true, false, false] := by decide
+
+/-- a regex layer: the pattern engine is a parameter; with "starts with" as engine the layer `top` defined by the
+    pattern `r.a.` resolves — on the node list of the scan graph — to the modules `r.a.m`, `r.a.k` -/
+def exMt : Str → Str → Bool := fun p x => startsWith p x
+def exLarchRe : LArch := [("top".toList, [.regex "r.a.".toList]), ("low".toList, [.name "r.b".toList])]
+def exLsRe : Layers := [("top".toList, [nm "r.a.m", nm "r.a.k"]), ("low".toList, [nm "r.b"])]
+
+set_option maxRecDepth 40000 in
+example :
+    (generateGraph noRe (s "/x/r") (s "r") [] exTree exOpts).toOption.map
+        (fun g => (resolves exMt g.nodes exLarchRe exLsRe,
+          (assertAppliesLayer exMt (compileLayerRule exLarchRe exLFail) g).cls)) = some (true, .fail) ∧
+    layerDomain (scanArch (s "r") (toSEntries (isExcluded noRe exOpts.exclusions) (s "/x/r") exTree) [] exIs) exLsRe exLFail = true ∧
+    layerVerdict (scanArch (s "r") (toSEntries (isExcluded noRe exOpts.exclusions) (s "/x/r") exTree) [] exIs) exLsRe exLFail =
+      false := by decide
+
+/-! ### non-vacuity of the diagram theorem: `[r.a] --> [r.b]` and back on `exTree` -/
+
+/-- components `r.a`, `r.b`; arrows in both directions (the tree has `r.a.m → r.b` and `r.b → r.a.k`) -/
+def exDg : Diagram := { components := [nm "r.a", nm "r.b"], arrows := [(nm "r.a", nm "r.b"), (nm "r.b", nm "r.a")] }
+/-- only `r.a → r.b` drawn: the import `r.b → r.a.k` is not allowed -/
+def exDgBad : Diagram := { components := [nm "r.a", nm "r.b"], arrows := [(nm "r.a", nm "r.b")] }
+
+set_option maxRecDepth 40000 in
+example :
+    diagramDomain (scanArch (s "r") (toSEntries (isExcluded noRe exOpts.exclusions) (s "/x/r") exTree) [] exIs) exDg = true ∧
+    diagramDomain (scanArch (s "r") (toSEntries (isExcluded noRe exOpts.exclusions) (s "/x/r") exTree) [] exIs) exDgBad = true ∧
+    conforms (scanArch (s "r") (toSEntries (isExcluded noRe exOpts.exclusions) (s "/x/r") exTree) [] exIs) exDg true = true ∧
+    conforms (scanArch (s "r") (toSEntries (isExcluded noRe exOpts.exclusions) (s "/x/r") exTree) [] exIs) exDgBad false = false ∧
+    (generateGraph noRe (s "/x/r") (s "r") [] exTree exOpts).toOption.map
+        (fun g => ((applyAll noRe g (diagramRules true (parsedOf exDg))).cls,
+          (applyAll noRe g (diagramRules false (parsedOf exDgBad))).cls)) = some (.pass, .fail) := by decide +kernel
+
+/-- the same drawing as a FILE (hypotheses of `scan_diagram_file_conforms`, both sides evaluated) -/
+def exDgLines : List DLine := [
+  .arrow .r2 (.bracketed "r.a".toList) (.bracketed "r.b".toList),
+  .arrow .l2 (.bracketed "r.b".toList) (.bracketed "r.a".toList)]
+
+set_option maxRecDepth 40000 in
+example :
+    diagramWF exDgLines = true ∧ isInfix "@enduml".toList "\n' end".toList = false ∧
+    diagramDomain (scanArch (s "r") (toSEntries (isExcluded noRe exOpts.exclusions) (s "/x/r") exTree) [] exIs)
+      (specDiagram exDgLines) = true ∧
+    conforms (scanArch (s "r") (toSEntries (isExcluded noRe exOpts.exclusions) (s "/x/r") exTree) [] exIs)
+      (specDiagram exDgLines) true = true ∧
+    (generateGraph noRe (s "/x/r") (s "r") [] exTree exOpts).toOption.map
+        (fun g => (diagramAssert noRe (some (diagramText "' head\n".toList exDgLines "\n' end".toList)) none true g).cls) =
+      some .pass := by decide +kernel
+
+/-! ### non-vacuity of the label theorem: alias `A` for `r.a` on `exTree` -/
+
+def exAl : Aliases := [(nm "r.a", "A".toList)]
+
+set_option maxRecDepth 40000 in
+example :
+    (exAl.map (·.1)).Nodup ∧
+    (∀ a ∈ exAl, a.1 ∈ scanModules (s "r") (toSEntries (isExcluded noRe exOpts.exclusions) (s "/x/r") exTree) []) ∧
+    (generateGraph noRe (s "/x/r") (s "r") [] exTree exOpts).toOption.bind
+        (fun g => (plotLabels g.nodes (exAl.map fun a => (render a.1, a.2))).toOption) =
+      some ([(s "r", s "r"), (s "r.a", s "A"), (s "r.a.m", s "A.m"), (s "r.a.k", s "A.k"), (s "r.b", s "r.b")]) ∧
+    (scanModules (s "r") (toSEntries (isExcluded noRe exOpts.exclusions) (s "/x/r") exTree) []).map
+        (fun n => (render n, PtaSpec.label exAl n)) =
+      [(s "r", s "r"), (s "r.a", s "A"), (s "r.a.m", s "A.m"), (s "r.a.k", s "A.k"), (s "r.b", s "r.b")] := by
+  refine ⟨by decide, by decide, by decide, by decide⟩
+
+/-! ### non-vacuity of the limit theorem: the tree of `C09.ScanEx`, `module_path = r/app`, `level_limit = 1` -/
+
+/-- r/app/{a/x.py, b/y/z.py, c.py}; x: `import app.b.y.z`; z: `from ... import c` — the imports of the specification -/
+def limIs : List (Name × Name) := [(nm "r.app.a.x", nm "r.app.b.y.z"), (nm "r.app.b.y.z", nm "r.app.c")]
+
+/-- `r.app.a` should only import `r.app.b` — holds on both graphs (`r.app.a.x → r.app.b.y.z`, flattened `r.app.a → r.app.b`) -/
+def limPass : RuleSpec :=
+  { verb := .shouldOnly, importDir := true, exc := false, subjects := [.named (nm "r.app.a")], objects := [.named (nm "r.app.b")] }
+/-- `r.app.b` should not import `r.app.c` — violated on both graphs (`r.app.b.y.z → r.app.c`) -/
+def limFail : RuleSpec :=
+  { verb := .shouldNot, importDir := true, exc := false, subjects := [.named (nm "r.app.b")], objects := [.named (nm "r.app.c")] }
+/-- `r.app.c` should not be imported by anything except `r.app.b` — holds on both graphs -/
+def limExc : RuleSpec :=
+  { verb := .shouldNot, importDir := false, exc := true, subjects := [.named (nm "r.app.c")], objects := [.named (nm "r.app.b")] }
+/-- sub modules of `r.app` should not import anything — an `are_sub_modules_of` parent ON the bound (two components);
+    holds on both graphs (every import stays among the sub modules of `r.app`) -/
+def limSub : RuleSpec :=
+  { verb := .shouldNot, importDir := true, exc := false, subjects := [.subOf (nm "r.app")], objects := [], anything := true }
+
+open Pta.C09.ScanEx in
+set_option maxRecDepth 100000 in
+/-- every hypothesis of `scan_rule_verdict_limit` holds (k = 1, |mp| = 1, so the bound is `ruleAbove 2`) … -/
+example :
+    treeWFFor (isExcluded mt0 o1.exclusions) (S "/r") [S "app"] ents = true ∧ mpOK ents [S "app"] = true ∧
+    compWF (S "r") = true ∧ o1.excludeExternal = true ∧ o1.levelLimit = some 1 ∧ o1.externalExclusions.isEmpty = true ∧
+    (∀ e ∈ ents, ∀ st ∈ e.stmts, stmtOK (toSStmt st) = true) ∧
+    scanImports (S "r") (toSEntries (isExcluded mt0 o1.exclusions) (S "/r") ents) [S "app"] = some limIs ∧
+    (∀ r ∈ [limPass, limFail, limExc, limSub],
+      r.strict = true ∧
+      r.namesIn (scanArch (S "r") (toSEntries (isExcluded mt0 o1.exclusions) (S "/r") ents) [S "app"] limIs) = true ∧
+      r.subjects ≠ [] ∧ (r.anything = true ∨ r.objects ≠ []) ∧ (r.anything = true → r.verb = .shouldNot) ∧
+      ruleAbove (1 + [S "app"].length) r = true) := by
+  refine ⟨by decide, by decide, by decide, by decide, by decide, by decide, by decide, by decide, by decide⟩
+
+open Pta.C09.ScanEx in
+set_option maxRecDepth 100000 in
+/-- … and all three sides evaluated: the limited scan, the scan without limit, and the documented semantics on the
+    full specification architecture -/
+example :
+    (generateGraph mt0 (S "/r") (S "r") [S "app"] ents o1).toOption.map
+        (fun g => [limPass, limFail, limExc, limSub].map fun r => verdictOf mt0 g (compile r)) = some [.pass, .fail, .pass, .pass] ∧
+    (generateGraph mt0 (S "/r") (S "r") [S "app"] ents o1.noLimit).toOption.map
+        (fun g => [limPass, limFail, limExc, limSub].map fun r => verdictOf mt0 g (compile r)) = some [.pass, .fail, .pass, .pass] ∧
+    [limPass, limFail, limExc, limSub].map
+        (verdict (scanArch (S "r") (toSEntries (isExcluded mt0 o1.exclusions) (S "/r") ents) [S "app"] limIs)) =
+      [true, false, true, true] := by
+  refine ⟨by decide, by decide, by decide⟩
+
+open Pta.C09.ScanEx in
+set_option maxRecDepth 100000 in
+/-- the bound is needed: `r.app.b.y` (two levels below `r.app`) is a scanned module, the rule `r.app.b.y should import
+    r.app.c` is strict and holds on the full graph, but the module does not exist in the limited graph (the query
+    raises) — `ruleAbove 2` fails for it -/
+example :
+    let r : RuleSpec := { verb := .should, importDir := true, exc := false, subjects := [.named (nm "r.app.b.y")],
+                          objects := [.named (nm "r.app.c")] }
+    r.strict = true ∧
+    r.namesIn (scanArch (S "r") (toSEntries (isExcluded mt0 o1.exclusions) (S "/r") ents) [S "app"] limIs) = true ∧
+    ruleAbove (1 + [S "app"].length) r = false ∧
+    (generateGraph mt0 (S "/r") (S "r") [S "app"] ents o1.noLimit).toOption.map
+        (fun g => verdictOf mt0 g (compile r)) = some .pass ∧
+    (generateGraph mt0 (S "/r") (S "r") [S "app"] ents o1).toOption.map
+        (fun g => verdictOf mt0 g (compile r)) ≠ some .pass := by
+  refine ⟨by decide, by decide, by decide, by decide, by decide⟩
+
+/-- layers `A` = `r.app.a`, `B` = `r.app.b` on the limited graph; `A should only access B` -/
+def limLs : Layers := [("A".toList, [nm "r.app.a"]), ("B".toList, [nm "r.app.b"])]
+def limLR : LRuleSpec :=
+  { verb := .shouldOnly, importDir := true, exc := false, subject := "A".toList, objects := ["B".toList] }
+
+open Pta.C09.ScanEx in
+set_option maxRecDepth 100000 in
+/-- hypotheses of `scan_layer_verdict_limit` and both sides (the quotient architecture has the import `r.app.a → r.app.b`) -/
+example :
+    (truncArch (shiftedLimit o1 [S "app"])
+      (scanArch (S "r") (toSEntries (isExcluded mt0 o1.exclusions) (S "/r") ents) [S "app"] limIs)).imports =
+      [(nm "r.app.a", nm "r.app.b"), (nm "r.app.b", nm "r.app.c")] ∧
+    layerDomain (truncArch (shiftedLimit o1 [S "app"])
+      (scanArch (S "r") (toSEntries (isExcluded mt0 o1.exclusions) (S "/r") ents) [S "app"] limIs)) limLs limLR = true ∧
+    layerVerdict (truncArch (shiftedLimit o1 [S "app"])
+      (scanArch (S "r") (toSEntries (isExcluded mt0 o1.exclusions) (S "/r") ents) [S "app"] limIs)) limLs limLR = true ∧
+    (generateGraph mt0 (S "/r") (S "r") [S "app"] ents o1).toOption.map
+        (fun g => (assertAppliesLayer mt0 (compileLayerRule (compileLArch limLs) limLR) g).cls) = some .pass := by
+  refine ⟨by decide, by decide, by decide, by decide⟩
 
 end Pta.E2E
